@@ -112,8 +112,8 @@ Section TomBuf.
   Lemma trep_init : trep init [].
   Proof.
     unfold trep, tinv, tabs, tbits, init. cbn [t_length t_state t_curlen t_buf Z.to_nat firstn].
-    rewrite zlen_repeat. unfold B. repeat split; try lia.
-    symmetry. apply absorb_nil; [apply Bpos|]. cbn. fold B. apply Bpos.
+    rewrite zlen_repeat. split; [unfold B; lia|]. split; [|reflexivity].
+    symmetry. apply absorb_nil; [apply Bpos|]. cbn [snd length]. apply Bpos.
   Qed.
 
   Lemma tom_process_ok c msg d : trep c msg -> 8 * (zlen msg + zlen d) < 2 ^ 64 ->
@@ -129,7 +129,7 @@ Section TomBuf.
     destruct (tom_loop_ok (S (length d)) c d 0 (zlen d)) as (c' & H1 & H2 & H3 & H4);
       try (unfold tbits, zlen in *; lia); [exact Hinv|].
     exists c'. split; [exact H1|]. split; [exact H2|]. split.
-    - rewrite H3, Habs. cbn [Z.to_nat skipn]. apply absorb_app.
+    - rewrite H3, Habs. cbn [Z.to_nat skipn]. apply (absorb_app B Bpos).
     - rewrite H4. unfold tbits. rewrite zlen_app. lia.
   Qed.
 
@@ -199,8 +199,8 @@ Section TomBuf.
       assert (Ht1 : zlen (p ++ t1) = blk).
       { unfold t1. rewrite !zlen_app, zlen_cons, zlen_nil, zlen_repeat. lia. }
       set (b1 := p ++ t1) in *.
-      change b1 with ([] ++ b1) at 2.
-      rewrite zero_fill_app; [|reflexivity|lia]. cbn [hbind app]. rewrite Z.sub_0_r.
+      change (zero_fill b1 0 (blk - 8)) with (zero_fill ([] ++ b1) 0 (blk - 8)).
+      rewrite zero_fill_app; [|reflexivity|lia]. cbn [hbind]. rewrite app_nil_l, Z.sub_0_r.
       set (t := skipn (Z.to_nat (blk - 8)) b1).
       assert (Ht : zlen t = 8) by (unfold t; rewrite zlen_skipn; lia).
       rewrite memcpy_at_app; [|rewrite zlen_repeat; lia|unfold zlen in *; lia]. cbn [hbind].
@@ -251,7 +251,7 @@ Section TomBuf.
       assert (Ht1 : zlen (p ++ t1) = blk).
       { unfold t1, z. rewrite !zlen_app, zlen_cons, zlen_nil, zlen_repeat. unfold zlen at 2. rewrite Hbe8. lia. }
       rewrite (md_fold_absorb B Bpos compress iv _ (length msg / B + 1)).
-      2:{ rewrite !app_length. rewrite app_length in Ht1. unfold zlen in Ht1.
+      2:{ rewrite !app_length. unfold zlen in Ht1. rewrite app_length in Ht1.
           assert (Z.of_nat (length msg) = n) by reflexivity.
           pose proof (Nat.div_mod (length msg) B ltac:(pose proof Bpos; lia)).
           assert (Z.of_nat (length msg mod B) = cl).
